@@ -318,6 +318,45 @@ func runC17(c *h.Ctx) {
 			}
 		}
 	}
+	// the same string through two casts in one execution - first without, then
+	// with a precision, and the other way round: each cast is what it is alone
+	for _, s := range grid {
+		if s.kind == "bad" || !strings.Contains(s.s, ".") {
+			continue
+		}
+		for _, m := range []string{"time", "time_tz", "timestamp", "timestamp_tz"} {
+			for _, prec := range []int{0, 1, 3, 7} {
+				idx++
+				if !c.Mine(idx) {
+					continue
+				}
+				for fi, form := range []string{"$ ? (exists(@.%[1]s())).%[1]s(%[2]d).string()", "$.%[1]s().string() == $.%[1]s(%[2]d).string()", "$ ? (@.datetime().type() != \"x\").%[1]s(%[2]d).string()",
+					"$.%[1]s(%[2]d) == $.%[1]s()", "$ ? (exists(@.%[1]s(%[2]d))).%[1]s().string()", "$.%[1]s(%[2]d).string() == $.datetime().string()", "$ ? (@.%[1]s() == @.%[1]s()).%[1]s(%[2]d)"} {
+					ptxt := fmt.Sprintf(form, m, prec)
+					p := cachedPath(ptxt)
+					if p == nil {
+						continue
+					}
+					tz := (fi+prec)%2 == 0
+					ec := &ExecCase{Text: ptxt, P: p, Doc: `"` + s.s + `"`, TZ: tz, Zone: "+05:30"}
+					o := h.Call("query", p, s.s, ec.Opts())
+					c.Eval(1)
+					c.Distinct(ptxt, s.s, fmt.Sprint(tz))
+					verdict, feat, detail := modelVerdict(ec, o)
+					switch {
+					case verdict == "held":
+						c.Held("cast.precision")
+					case strings.HasPrefix(verdict, "skip:"):
+						c.Skip("cast.precision", strings.TrimPrefix(verdict, "skip:"))
+					default:
+						feat["method"] = m
+						feat["form"] = "two-casts"
+						c.Violate("cast.precision", feat, fmt.Sprintf("%s on %q (WithTZ=%v): %s", ptxt, s.s, tz, detail), ec.Case())
+					}
+				}
+			}
+		}
+	}
 	c.SetExhaustive("datetime string grid x 6 methods x precisions x WithTZ x context zones; all pairs of the comparison sub-grid x 6 operators x zones")
 	// comparison sub-grid: all pairs
 	var sub []dtStr
